@@ -152,8 +152,11 @@ pub fn run(seed: u64, n: usize, out: &Path, thorough: bool, id: &str, module: &s
     let mut stats = Stats::default();
     let mut cw = CaseWriter::new(out, id, module, 25)?;
     let mut distinct = std::collections::HashSet::new();
-    let now = c02::T0 + 10;
     for i in 0..n {
+        // the receiving side's clock during the session: usually later than every entry; in a fifth of the
+        // sessions a little behind the writers' clocks (entries up to 8 microseconds "in the future", far
+        // inside the ten minutes every path accepts)
+        let now = if rng.chance(1, 5) { stats.inc("session_clock_behind_writers"); c02::T0 - 3 } else { c02::T0 + 10 };
         let n_auth = 1 + rng.below(3) as usize;
         let w = World::new(seed.wrapping_add((i % 5) as u64), n_auth);
         let max_ops = if thorough { 30 } else { 16 };
